@@ -21,7 +21,8 @@ func init() {
 		"The concrete message/line for a concrete program is a runtime value and is not decided.", runC12)
 }
 
-// isAddSyntaxError: a call that records a diagnostic - AddSyntaxError itself or a wrapper that always calls it.
+// isAddSyntaxError: a call that records a diagnostic - AddSyntaxError itself, a primitive that appends a diagnostics record to the list
+// the gate reads (diagPrimitives), or a wrapper that always calls one of those (also the closure a constructor returns).
 func isAddSyntaxError(i ssa.Instruction) bool {
 	c, ok := i.(ssa.CallInstruction)
 	if !ok {
@@ -33,43 +34,66 @@ func isAddSyntaxError(i ssa.Instruction) bool {
 
 var diagWrapperSet map[*ssa.Function]bool
 
-// diagWrappers: repo functions in which a diagnostic call sits in a block that dominates every return (fixpoint over wrappers of wrappers).
+// diagWrappers: the diagnostic primitives, and the repo functions in which a diagnostic call sits in a block that dominates every
+// return (fixpoint over wrappers of wrappers). A call counts through its static callee or through the one function its function
+// value can be (calleeOf).
 func diagWrappers() map[*ssa.Function]bool {
 	if diagWrapperSet != nil || theWorld == nil {
 		return diagWrapperSet
 	}
 	set := map[*ssa.Function]bool{}
 	diagWrapperSet = set
+	for f := range diagPrimitives() {
+		set[f] = true
+	}
+	// the calls of each function, resolved once
+	type callIn struct {
+		b *ssa.BasicBlock
+		g *ssa.Function
+	}
+	calls := map[*ssa.Function][]callIn{}
+	rets := map[*ssa.Function][]*ssa.BasicBlock{}
+	for _, fn := range theWorld.srcFuncs {
+		if fn.Name() == "AddSyntaxError" || len(fn.Blocks) == 0 {
+			continue
+		}
+		for _, b := range fn.Blocks {
+			if _, ok := b.Instrs[len(b.Instrs)-1].(*ssa.Return); ok {
+				rets[fn] = append(rets[fn], b)
+			}
+		}
+		if len(rets[fn]) == 0 {
+			continue
+		}
+		for _, b := range fn.Blocks {
+			for _, ins := range b.Instrs {
+				if c, ok := ins.(ssa.CallInstruction); ok {
+					g := c.Common().StaticCallee()
+					if g == nil && !c.Common().IsInvoke() {
+						if _, isB := c.Common().Value.(*ssa.Builtin); !isB {
+							g = calleeOf(c)
+						}
+					}
+					if g != nil && g != fn {
+						calls[fn] = append(calls[fn], callIn{b, g})
+					}
+				}
+			}
+		}
+	}
 	for changed := true; changed; {
 		changed = false
 		for _, fn := range theWorld.srcFuncs {
-			if set[fn] || fn.Name() == "AddSyntaxError" || len(fn.Blocks) == 0 {
+			if set[fn] || len(calls[fn]) == 0 {
 				continue
 			}
-			var rets []*ssa.BasicBlock
-			for _, b := range fn.Blocks {
-				if _, ok := b.Instrs[len(b.Instrs)-1].(*ssa.Return); ok {
-					rets = append(rets, b)
-				}
-			}
-			if len(rets) == 0 {
-				continue
-			}
-			for _, b := range fn.Blocks {
-				has := false
-				for _, ins := range b.Instrs {
-					if c, ok := ins.(ssa.CallInstruction); ok {
-						if g := c.Common().StaticCallee(); g != nil && (g.Name() == "AddSyntaxError" || set[g]) {
-							has = true
-						}
-					}
-				}
-				if !has {
+			for _, ci := range calls[fn] {
+				if ci.g.Name() != "AddSyntaxError" && !set[ci.g] {
 					continue
 				}
 				all := true
-				for _, rb := range rets {
-					if !b.Dominates(rb) {
+				for _, rb := range rets[fn] {
+					if !ci.b.Dominates(rb) {
 						all = false
 					}
 				}
@@ -683,6 +707,10 @@ func c12Namespaces(w *World, r *Report) {
 						ok = true
 					}
 				}
+				if !ok && nsGuardedByVerdict(w, fn, x, b) {
+					// the membership test and the duplicate message are in a checking helper, the insertion is behind its verdict
+					ok = true
+				}
 				if ok {
 					r.pass(rule, key, w.instrPos(ins), "guarded by membership test; duplicate reports the current declaration's line")
 				} else {
@@ -736,8 +764,14 @@ func c12Namespaces(w *World, r *Report) {
 						}
 					}
 				}
+				// the test is made by a checking helper, the assignment is behind the flag it returns
+				vOK, vRootEdge := false, false
+				if !okRoot {
+					vOK, vRootEdge = rootGuardedByVerdict(w, fn, x, b)
+					okRoot = vOK
+				}
 				// ... and only a packet declared `root` takes the slot
-				isRootEdge := false
+				isRootEdge := vOK && vRootEdge
 				for _, bb := range fn.Blocks {
 					cond := branchCond(bb)
 					if cond == nil {
@@ -1038,12 +1072,25 @@ func nsGuardedAtCallSites(w *World, fn *ssa.Function, mu *ssa.MapUpdate, phase [
 // lineSource: where does the Line of the SyntaxError passed to AddSyntaxError come from: "earlier" if it derives from the looked-up entry.
 func lineSource(diag ssa.CallInstruction, lk *ssa.Lookup) string {
 	args := diag.Common().Args
-	if len(args) < 2 {
+	viaRoutine := func() string {
+		// the record is built by the routine that is called (a reporter made for a position): the line it is handed
+		vs := diagPositionValues(diag, "Line")
+		for _, v := range vs {
+			if derivesFrom(v, lk, 0) {
+				return "earlier"
+			}
+		}
+		if len(vs) > 0 {
+			return "current"
+		}
 		return ""
+	}
+	if len(args) < 2 {
+		return viaRoutine()
 	}
 	al, ok := args[1].(*ssa.Alloc)
 	if !ok {
-		return ""
+		return viaRoutine()
 	}
 	for _, ref := range *al.Referrers() {
 		fa, ok := ref.(*ssa.FieldAddr)
@@ -2434,6 +2481,10 @@ func c12DiagnosticSink(w *World, r *Report) {
 				kept = true
 			}
 		})
+		// or it hands the diagnostic, on every call, to a routine that appends it to that list (a method of the list's own type, ...)
+		if !kept && keepsDiagnostic(sink, sink.Params[1], 0) {
+			kept = true
+		}
 		if kept {
 			r.pass(rule, key, w.pos(sink.Pos()), "appends its argument to BinaryModel.SyntaxErrors on every call")
 		} else {
